@@ -9,7 +9,7 @@ PROPS = {
         "areas": [
             {"area": "gatetab", "n": 1, "extra": ["TSim"]},
             {"area": "gatetab", "n": 1, "extra": ["Prepend"]},
-            {"area": "tsim", "n": {"quick": 600, "thorough": 20000}, "replayable": True},
+            {"area": "tsim", "shrink": True, "n": {"quick": 600, "thorough": 20000}, "replayable": True},
         ],
         "rule": "seeded structured circuits over every gate of the compiled gate table (repeated/overlapping targets, qubit ids straddling 64/128/256, "
                 "nested REPEAT, rec feedback on both documented sides, ! targets, MPP/SPP with cancelling factors, pair measurements, MPAD); per circuit: "
@@ -53,7 +53,7 @@ PROPS = {
         "assumptions": [],
     },
     "C09": {
-        "lean_modules": ["StimModel.Props.C09", "StimModel.Core.R8", "StimModel.Core.Uint"],
+        "lean_modules": ["StimModel.Props.C09", "StimModel.Core.R8", "StimModel.Core.Uint", "StimModel.Props.C09b"],
         "builds": ["asan"],
         "areas": [
             {"area": "fmt", "n": {"quick": 1600, "thorough": 40000}, "builds": ["asan"]},
@@ -73,7 +73,7 @@ PROPS = {
             {"area": "bits", "n": {"quick": 2400, "thorough": 60000}},
             {"area": "pauli", "n": {"quick": 900, "thorough": 20000}},
             {"area": "tableau", "n": {"quick": 150, "thorough": 3000}},
-            {"area": "tsim", "n": {"quick": 150, "thorough": 3000}},
+            {"area": "tsim", "shrink": True, "n": {"quick": 150, "thorough": 3000}},
         ],
         "rule": "simd_bits / simd_bits_range_ref / simd_bit_table operations (xor, and, or, not, popcnt, not_zero, countr_zero, intersects, subset, shifts, add, sub, truncated overwrite, "
                 "clear_bits_past, operator<, swap, transposed, transpose_into, do_square_transpose, square_mat_mul, inverse_assuming_lower_triangular, slice_maj, concat_major, "
@@ -104,7 +104,7 @@ PROPS = {
         "assumptions": ["coordinates are dyadic so binary64 arithmetic is exact; with astronomically large repeat counts only the integer counts are compared"],
     },
     "C02": {
-        "lean_modules": ["StimModel.Props.C02", "StimModel.Core.FrameRel", "StimModel.Generated.FrameThms", "StimModel.Generated.GateThms"],
+        "lean_modules": ["StimModel.Props.C02", "StimModel.Core.FrameRel", "StimModel.Generated.FrameThms", "StimModel.Generated.GateThms", "StimModel.Props.GF2"],
         "areas": [
             {"area": "gatetab", "n": 1, "extra": ["Frame"]},
             {"area": "fsim", "n": {"quick": 500, "thorough": 10000}, "replayable": True},
@@ -119,7 +119,7 @@ PROPS = {
         "assumptions": ["disjoint / heralded / correlated channels are over-approximated by the span of their Paulis (sound for the validity check)"],
     },
     "C04": {
-        "lean_modules": ["StimModel.Props.C04"],
+        "lean_modules": ["StimModel.Props.C04", "StimModel.Props.GF2"],
         "areas": [
             {"area": "fsim", "n": {"quick": 500, "thorough": 10000}, "replayable": True},
         ],
@@ -135,7 +135,7 @@ PROPS = {
         "lean_modules": ["StimModel.Props.C03", "StimModel.Generated.RevThms", "StimModel.Generated.FrameThms", "StimModel.Generated.GateThms"],
         "areas": [
             {"area": "gatetab", "n": 1, "extra": ["Rev"]},
-            {"area": "cdem", "n": {"quick": 400, "thorough": 10000}, "replayable": True},
+            {"area": "cdem", "shrink": True, "n": {"quick": 400, "thorough": 10000}, "replayable": True},
         ],
         "rule": "QEC-like circuits with deterministic detectors (random stabilizer groups measured by MPP over several rounds, random Clifford gates with chained pairs between rounds with the measured "
                 "products conjugated along, REPEAT, feedback, every noise channel incl. measurement-flip arguments, heralded and E/ELSE chains) and arbitrary annotated noisy circuits (mostly "
@@ -151,7 +151,7 @@ PROPS = {
         "lean_modules": ["StimModel.Props.C06", "StimModel.Core.Fold"],
         "areas": [
             {"area": "fold", "n": {"quick": 400, "thorough": 8000}, "replayable": True, "timeout": 1500},
-            {"area": "cdem", "n": {"quick": 150, "thorough": 3000}, "replayable": True},
+            {"area": "cdem", "shrink": True, "n": {"quick": 150, "thorough": 3000}, "replayable": True},
         ],
         "rule": "loop circuits from 6 body templates (rotating data, measure-reset with cross-iteration detectors, observables accumulating across iterations, delayed feedback, nested loops, "
                 "repetition-code rounds) with designed transient 0..6 and period 1..6, repetition counts {1..6, 9, 10, 11, 50, around transient+period, 1000, 10^6}: folded vs unfolded models "
@@ -164,23 +164,26 @@ PROPS = {
         "assumptions": [],
     },
     "C08": {
-        "lean_modules": ["StimModel.Props.C08"],
+        "lean_modules": ["StimModel.Props.C08", "StimModel.Props.C08b"],
         "builds": ["asan"],
         "areas": [
             {"area": "dem", "n": {"quick": 1500, "thorough": 30000}, "builds": ["asan"], "replayable": True},
+            {"area": "demtext", "n": {"quick": 800, "thorough": 16000}, "builds": ["asan"], "replayable": True},
         ],
         "rule": "models built through the API (nested repeat blocks incl. repeat 0, shifts of varying arity, separators, tags with escapes, 60-bit ids, probabilities from random mantissas, "
                 "denormals, 0.1-like decimals, 1-ulp-below-1): print -> parse -> equal and print idempotent (exact, in C++), flattened / iter_flatten / counts / total shift / final coordinate shift / "
-                "detector coordinates against the Lean one-instruction-at-a-time executor in exact rationals, under ASan+UBSan; distinct = distinct model texts",
-        "trusted_base": ["libc strtod / 19-digit formatting for the text round trip (compared C++ against C++)"],
-        "partial": ["the byte-level Lean parser/printer model of the DEM grammar (dem_parse_total, dem_print_parse_roundtrip, dem_validate_rejects_*) is not yet built: the text round trip is checked "
-                    "inside C++ only and hostile byte strings are not yet fed to the parser"],
+                "detector coordinates against the Lean one-instruction-at-a-time executor in exact rationals, under ASan+UBSan; byte level (area demtext): models built through the API (tags of arbitrary "
+                "bytes, ids up to 2^60-1, coordinates incl. 1e300 / 5e-324 / 999999.5, repeat counts incl. 0): the Lean printer must produce the bytes of str() (19 significant digits) and the Lean parser must "
+                "read them back; printed texts with documented liberties (letter case of names and targets, blanks, comments, CRLF), 31 kinds of violations, truncated texts and random bytes: accept/reject "
+                "and the parsed structure must equal the Lean parser's; string, file and incremental entry points must agree; distinct = distinct model texts",
+        "trusted_base": [],
+        "partial": ["strtod is modelled as exact decimal value + within one unit in the last place"],
         "assumptions": ["coordinates are dyadic so that shifted coordinates are exact in binary64"],
     },
     "C10": {
         "lean_modules": ["StimModel.Props.C10", "StimModel.Props.C03"],
         "areas": [
-            {"area": "cdem", "n": {"quick": 500, "thorough": 8000}, "extra": ["decompose"], "replayable": True},
+            {"area": "cdem", "shrink": True, "n": {"quick": 500, "thorough": 8000}, "extra": ["decompose"], "replayable": True},
         ],
         "rule": "the circuits of the cdem area (multi-qubit channels between multi-body stabilizer measurements: errors touching 3..8 detectors and observables) analysed with "
                 "decompose_errors x ignore_decomposition_failures x block_decomposition_from_introducing_remnant_edges x fold_loops x allow_gauge x approximate: the decomposed model is judged by the "
@@ -221,7 +224,7 @@ PROPS = {
     "C18": {
         "lean_modules": ["StimModel.Props.C18"],
         "areas": [
-            {"area": "explain", "n": {"quick": 400, "thorough": 8000}, "replayable": True},
+            {"area": "explain", "shrink": True, "n": {"quick": 400, "thorough": 8000}, "replayable": True},
         ],
         "rule": "noisy annotated circuits (repetition-code-like circuits with REPEAT nesting up to depth 3, TICKs, QUBIT_COORDS, SHIFT_COORDS, every measurement flavour with noise, "
                 "heralded channels, every Pauli channel type, E/ELSE chains, feedback; stabilizer-measurement circuits; random annotated circuits that are analysable), relabelled onto sparse qubit ids; "
@@ -235,10 +238,10 @@ PROPS = {
         "assumptions": ["circuits whose detectors are deterministic (the circuit's model exists without allow_gauge_detectors)"],
     },
     "C14": {
-        "lean_modules": ["StimModel.Props.C14"],
+        "lean_modules": ["StimModel.Props.C14", "StimModel.Props.GF2"],
         "builds": ["asan"],
         "areas": [
-            {"area": "flow", "n": {"quick": 400, "thorough": 8000}, "replayable": True, "builds": ["asan"]},
+            {"area": "flow", "shrink": True, "n": {"quick": 400, "thorough": 8000}, "replayable": True, "builds": ["asan"]},
         ],
         "rule": "random circuits on 2..4 qubits (unitary only; + measurements, resets, MPP, pair measurements, SPP; + feedback; + sweep controls, MPAD, noise incl. probability 1, "
                 "detectors, observables with record and Pauli targets, annotations, REPEAT), compacted; flows: products of 1..3 generators (valid), optionally extended to qubits beyond the circuit, "
@@ -252,9 +255,9 @@ PROPS = {
         "assumptions": [],
     },
     "C13": {
-        "lean_modules": ["StimModel.Props.C13"],
+        "lean_modules": ["StimModel.Props.C13", "StimModel.Props.GF2"],
         "areas": [
-            {"area": "rewrite", "n": {"quick": 360, "thorough": 6000}, "replayable": True},
+            {"area": "rewrite", "shrink": True, "n": {"quick": 360, "thorough": 6000}, "replayable": True},
         ],
         "rule": "random circuits on 2..4 qubits (unitary; measuring incl. MPP, pair measurements with overlapping and inverted targets, SPP; feedback CX/CY/CZ/XCZ/YCZ with the bit on either documented side; "
                 "sweep controls, MPAD, noise, detectors/observables, annotations, nested REPEAT) and stabilizer-measurement circuits with noise, heralded channels and feedback; random tags on instructions "
@@ -299,7 +302,7 @@ PROPS = {
         "assumptions": ["std::mt19937_64 seeded from the case PRNG behaves as an ideal source"],
     },
     "C07": {
-        "lean_modules": ["StimModel.Props.C07"],
+        "lean_modules": ["StimModel.Props.C07", "StimModel.Props.C07b"],
         "builds": ["asan"],
         "areas": [
             {"area": "text", "n": {"quick": 800, "thorough": 16000}, "replayable": True, "builds": ["asan"]},
